@@ -43,9 +43,33 @@ INTERPRETERS = {
 MANDATORY = "3.12"
 
 
+def _unpack(prefixes, target, marker):
+    if os.path.exists(os.path.join(target, marker)):
+        return
+    os.makedirs(target, exist_ok=True)
+    for name in sorted(os.listdir(WHEELS)):
+        if name.endswith(".whl") and any(name.startswith(p) for p in prefixes):
+            tmp = target + ".tmp%d" % os.getpid()
+            with zipfile.ZipFile(os.path.join(WHEELS, name)) as zf:
+                zf.extractall(tmp)
+            for entry in os.listdir(tmp):
+                dst = os.path.join(target, entry)
+                if not os.path.exists(dst):
+                    try:
+                        os.rename(os.path.join(tmp, entry), dst)
+                    except OSError:
+                        pass
+            shutil.rmtree(tmp, ignore_errors=True)
+
+
 def ensure_deps() -> None:
     """Idempotent, offline: unpack the pure-python typing_extensions wheel for the pyenv
-    interpreters.  (The exceptiongroup stand-in is a committed 5-line file.)"""
+    interpreters and icontract (+asttokens, six) for the contract-based monitors.
+    (The exceptiongroup stand-in is a committed 5-line file.)"""
+    try:
+        _unpack(["icontract-", "asttokens-", "six-"], os.path.join(DEPS, "contracts"), "icontract")
+    except Exception:
+        pass  # contracts are an extra monitor; checks record when they are unavailable
     target = os.path.join(DEPS, "compat")
     marker = os.path.join(target, "typing_extensions.py")
     if os.path.exists(marker):
@@ -75,6 +99,8 @@ def available_interpreters() -> dict:
 def worker_env(interp: str, extra: dict | None = None) -> dict:
     env = dict(os.environ)
     path = [VERIF, REPO]
+    if interp == "3.12":
+        path.append(os.path.join(DEPS, "contracts"))
     if interp != "3.12":
         path.append(os.path.join(DEPS, "compat"))
         if interp in ("3.9", "3.10"):
